@@ -15,11 +15,12 @@
                         no four consecutive entries pass areSiblings;
     - [NSset l]      := no valid non-leaf cell has all its four Children in l;
     - [covered N c]  := every leaf of c is a leaf of N;
-    - [sorted_cu l]  := Forall valid l /\ StronglySorted before l  (IsValid() of the library). *)
+    - [sorted_cu l]  := Forall valid l /\ StronglySorted before l  (IsValid() of the library);
+    - [limit_id e]   := e is odd and 0 < e <= 6*2^61 + 1 (a leaf id or the end sentinel). *)
 From Coq Require Import ZArith List Bool Sorted.
 From Geo Require Import Base.GoPrim Gen.CellID Model.CellUnion.
 From Geo Require Import Proofs.C11_Bits Proofs.C11_Cells Proofs.C11_Normalize Proofs.C11_Unique Proofs.C11_Search
-  Proofs.C11_SetOps.
+  Proofs.C11_SetOps Proofs.C11_Range.
 Import ListNotations.
 Local Open Scope Z_scope.
 
@@ -136,3 +137,25 @@ Theorem intersection_leaves : forall x y, sorted_cu x -> sorted_cu y ->
   forall t, leaf t -> (cov (cu_FromIntersection x y) t <-> cov x t /\ cov y t).
 Proof. exact C11_SetOps.intersection_spec. Qed.
 Print Assumptions intersection_leaves.
+
+(** * Ranges ----------------------------------------------------------------- *)
+Theorem from_range_covers_exactly_and_is_normal : forall b e, valid b -> leaf b -> limit_id e -> b <= e ->
+  normal (cu_FromRange b e) /\ forall x, leaf x -> (cov (cu_FromRange b e) x <-> b <= x < e).
+Proof. exact from_range_spec. Qed.
+Print Assumptions from_range_covers_exactly_and_is_normal.
+
+Theorem from_range_minimal : forall b e cu, valid b -> leaf b -> limit_id e -> b <= e -> Forall valid cu ->
+  (forall x, leaf x -> (cov cu x <-> b <= x < e)) ->
+  cu_Normalize cu = cu_FromRange b e /\ (length (cu_FromRange b e) <= length cu)%nat.
+Proof. exact C11_Range.from_range_minimal. Qed.
+Print Assumptions from_range_minimal.
+
+Theorem max_tile_spec : forall c e, valid c -> u64 e -> leaf e -> rmin c < e ->
+  maxtile_ok e (cu_MaxTile c e) /\ rmin (cu_MaxTile c e) = rmin c.
+Proof. exact maxtile_spec. Qed.
+Print Assumptions max_tile_spec.
+
+Theorem normal_form_is_shortest : forall N cu, normal N -> Forall valid cu ->
+  (forall x, leaf x -> (cov cu x <-> cov N x)) -> (length N <= length cu)%nat.
+Proof. exact normal_shortest. Qed.
+Print Assumptions normal_form_is_shortest.
